@@ -2,7 +2,7 @@
    raised before the value is stored) delivers the OLD value for the last
    update and then never delivers the new one. *)
 From Coq Require Import ZArith List.
-From Tally Require Import Model.Gauge.
+From Tally Require Import Model.Gauge Model.Gauge2 Proof.Gauge2P.
 Import ListNotations.
 
 Theorem C02_swapped_stores_refuted :
@@ -14,3 +14,22 @@ Proof.
   exists [TU (UIdle [7; 9]%Z); TR (RIdle 3)], [0; 0; 0; 1; 1; 0; 1; 1].
   vm_compute. repeat split. intros t [<-|[<-|[]]]; exact I.
 Qed.
+
+(* With the delivery split from the load (Model/Gauge2.v) the naive reading "at quiescence the
+   reporter's most recent value is the last update" is false of the model, and of any code that loads
+   the value before it calls the reporter: pass 1 loads 7 and is parked inside the reporter, the
+   second update stores 9, pass 2 starts afterwards, delivers 9 and completes, then pass 1 comes back
+   and the reporter receives 7 last.  Everything is quiescent and the last update HAS been delivered
+   (C02_split_fresh), but it is not the most recent delivery.  This is the residue named in the
+   evidence of C02: a reporter call is not atomic with the load. *)
+Theorem C02_most_recent_after_parked_pass_refuted :
+  exists ths sched,
+    forallb init_thr2 ths = true /\
+    let s := run2 (init2 ths) sched in
+    alldone2 s /\ nload2 s = 0 /\ ndeliv s = 0 /\ updated2 s = false /\
+    hd 0%Z (stored2 s) = 9%Z /\ In 9%Z (dlog s) /\ hd_error (dlog s) = Some 7%Z.
+Proof.
+  exists [T2U (UIdle [7; 9]%Z); T2R (R2Idle 1); T2R (R2Idle 1)], [0; 0; 1; 1; 0; 0; 2; 2; 2; 1].
+  vm_compute. repeat split; auto. intros t [<-|[<-|[<-|[]]]]; exact I.
+Qed.
+Print Assumptions C02_most_recent_after_parked_pass_refuted.
